@@ -34,6 +34,7 @@ type TimerCase struct {
 	Proc     bool    `json:"process"` // (c) a process with a timer catch event
 	PreTask  bool    `json:"preTask"`
 	SecondAt int     `json:"secondAt"` // (process) a second instance of the same definitions is created through the same builder before this step (-1 never)
+	LazyFrom int     `json:"lazyFrom"` // (timer alone, mock clock) from this step on nobody reads the timer's channel; the reader returns after the cancellation has settled (-1: the reader always reads)
 	Nest     int     `json:"nest"` // (process) the body of the process lies inside this many levels of embedded sub-process
 	NoSettle bool    `json:"noSettle"` // the clock is moved without waiting for the timer goroutines to settle (arming races the jumps)
 	def      *schema.TimerEventDefinition
@@ -136,11 +137,21 @@ func (t *TimerCase) Main() {
 		L.Add("fatal", err.Error(), "", 0)
 		return
 	}
+	pauseCh, resumeCh, readerGone := make(chan struct{}), make(chan struct{}), make(chan struct{})
 	go func() {
-		for range ch {
-			L.Add("fire", "", "", 0)
+		defer close(readerGone)
+		for {
+			select {
+			case _, ok := <-ch:
+				if !ok {
+					L.Add("closed", "", "", 0)
+					return
+				}
+				L.Add("fire", "", "", 0)
+			case <-pauseCh:
+				<-resumeCh // the consumer is busy elsewhere: nobody reads the timer's channel
+			}
 		}
-		L.Add("closed", "", "", 0)
 	}()
 	if t.NoSettle {
 		// jumps race the arming of the timer: only the final outcome is determined
@@ -154,14 +165,35 @@ func (t *TimerCase) Main() {
 	}
 	settle()
 	L.AddV("clock", "", int64(0))
+	cancelled := false
 	for i, st := range t.Steps {
+		if t.LazyFrom == i {
+			select {
+			case pauseCh <- struct{}{}:
+			case <-readerGone: // the channel was closed before: nothing is read any more anyway
+			}
+			L.Add("paused", "", "", i)
+		}
 		if t.CancelAt == i {
 			L.Add("cancel", "", "", i)
 			cancel()
+			cancelled = true
 			settle()
 		}
 		mock.Set(time.Unix(0, st))
 		L.AddV("clock", "", st)
+		settle()
+	}
+	if t.LazyFrom >= 0 && t.LazyFrom < len(t.Steps) {
+		// whatever became due while nobody was reading waits in the timer's goroutine; the cancellation
+		// withdraws it (the system is at rest before the reader comes back), so the reader finds no firing
+		if !cancelled {
+			L.Add("cancel", "", "", len(t.Steps))
+			cancel()
+			settle()
+		}
+		L.Add("resumed", "", "", 0)
+		close(resumeCh)
 		settle()
 	}
 	L.Add("end", "", "", 0)
@@ -244,7 +276,7 @@ func (t *TimerCase) mainProc(ctx context.Context, cancel context.CancelFunc, moc
 const ms = int64(time.Millisecond)
 
 func genC13(d *Draw) Case {
-	t := &TimerCase{CancelAt: -1, StartMs: -1, EndMs: -1, Reps: -1, SecondAt: -1}
+	t := &TimerCase{CancelAt: -1, StartMs: -1, EndMs: -1, Reps: -1, SecondAt: -1, LazyFrom: -1}
 	var marks []int64 // due instants (ns) the grid is built around
 	switch d.N(3) {
 	case 0:
@@ -369,6 +401,10 @@ func genC13(d *Draw) Case {
 			}
 		}
 	}
+	if !t.HostClk && !t.Proc && !t.NoSettle && !t.Back && d.N(5) == 4 {
+		// a reader that stops reading at some point and only returns after the cancellation
+		t.LazyFrom = d.N(len(t.Steps))
+	}
 	if t.Back {
 		back := false
 		for i := 1; i < len(t.Steps); i++ {
@@ -467,10 +503,25 @@ func checkC13(cc Case, r *simrt.Result) *Outcome {
 	requestsT1 := 0
 	armedFrom := -1
 	firedAfterArmed := 0
+	paused, resumed := false, false
 	for _, ev := range t.env.L.E {
+		if paused && (ev.Kind == "clock" || ev.Kind == "end") {
+			// nobody reads: what the definition prescribes is no longer what a reader can have seen
+			if ev.Kind == "end" {
+				ended = true
+			}
+			continue
+		}
 		switch ev.Kind {
+		case "paused":
+			paused = true
+		case "resumed":
+			resumed = true
 		case "fire":
 			fires++
+			if resumed {
+				vl.add("C13/fired-after-cancel", "a firing was handed to the reader of the timer's channel after the timer's context had been cancelled and the system had come to rest (the reader was away from step %d on and came back after the cancellation; history %v)", t.LazyFrom, t.Steps)
+			}
 			if cancelled && fires > firesAtCancel {
 				// a firing that was already due before the cancel may still be delivered; one due later may not
 				if step+1 < len(want) && cancelStep >= 0 && fires > maxWantUpTo(want, cancelStep) {
@@ -509,7 +560,7 @@ func checkC13(cc Case, r *simrt.Result) *Outcome {
 		}
 	}
 	_ = firedAfterArmed
-	if ended && !t.Proc {
+	if ended && !t.Proc && !paused {
 		last := len(want) - 1
 		if !cancelled {
 			if fires != want[last] {
@@ -599,6 +650,7 @@ func checkC13(cc Case, r *simrt.Result) *Outcome {
 	probe(o, "process-level", t.Proc)
 	probe(o, "two-instances-one-builder", t.Proc && t.SecondAt >= 0)
 	probe(o, "timer-catch-inside-sub-process", t.Proc && t.Nest > 0)
+	probe(o, "reader-away-until-after-cancel", paused && resumed)
 	probe(o, "cycle", t.Kind == "cycle")
 	probe(o, "clock-set-back", t.Back)
 	if t.Back {
